@@ -3133,10 +3133,17 @@ func parseEgressRule(raw string) (EgressRule, bool) {
 	if raw == "" || strings.Contains(raw, "://") {
 		return EgressRule{}, false
 	}
+	// Addresses are unmapped before they are matched against the rules, so an
+	// IPv4-mapped IPv6 rule ("::ffff:192.0.2.1", "::ffff:10.0.0.0/104") has to be
+	// stored in its IPv4 form or it would never match anything.
 	if pfx, err := netip.ParsePrefix(raw); err == nil {
+		if pfx.Addr().Is4In6() && pfx.Bits() >= 96 {
+			pfx = netip.PrefixFrom(pfx.Addr().Unmap(), pfx.Bits()-96)
+		}
 		return EgressRule{CIDR: pfx, IsCIDR: true}, true
 	}
 	if addr, err := netip.ParseAddr(raw); err == nil {
+		addr = addr.Unmap()
 		return EgressRule{CIDR: netip.PrefixFrom(addr, addr.BitLen()), IsCIDR: true}, true
 	}
 
